@@ -17,7 +17,7 @@ PROP = "C04"
 LEVEL = "model_checking"
 RULE = ("E3: BFS over all event sequences up to depth D (inject copy of key k in {(P1,m),(P2,m),(P3,m),(P1,m+1)} or, for slow handlers, of a "
         "fast request (P1,m+2) on the token of (P1,m), fire next "
-        "timer, jump to first arrival + EXCHANGE_LIFETIME -/+ 1 ms, ACK the separate response) per (handler kind, CON/NON, "
+        "timer, the same key under another token, the same key towards a second server endpoint of the process, jump to first arrival + EXCHANGE_LIFETIME -/+ 1 ms, ACK the separate response) per (handler kind, CON/NON, "
         "server initial MID) scenario, and behind three long prefixes (duplicate inside the lifetime, re-use after the expiry, the moment anything "
         "armed by the old duplicate is due), dedup on model + dedup table + piggyback table + timers + handler counters")
 ASSUMPTIONS = [
